@@ -558,6 +558,26 @@ static void c08_gen(Rng &rng, Plan &plan, bool thorough)
 	gen_history(rng, plan, (size_t)plan.p("in_len"), false, true, true);
 }
 
+// Many sync flushes a few bytes apart on repetitive data: the match finder
+// has to postpone and later replay the last positions every time.
+static void gen_flush_storm(Rng &rng, Plan &plan, size_t len)
+{
+	size_t left = len;
+	int n = 5 + (int)rng.below(40);
+	for (int i = 0; i < n && left > 0; ++i) {
+		size_t k = 1 + (size_t)rng.below(rng.chance(300) ? 400 : 40);
+		if (k > left) k = left;
+		Op op("flush");
+		op.set("kind", LZMA_SYNC_FLUSH).set("n", (int64_t)k);
+		op.set("in_each", (int64_t)(1 + rng.below(64))).set("out_each", (int64_t)(1 + rng.size_skewed(4096)));
+		plan.ops.push_back(op);
+		left -= k;
+	}
+	Op f("finish");
+	add_slices(rng, f, left, left);
+	plan.ops.push_back(f);
+}
+
 static void c12_gen(Rng &rng, Plan &plan, bool thorough)
 {
 	gen_sched_params(rng, plan, thorough);
@@ -576,6 +596,20 @@ static void c12_gen(Rng &rng, Plan &plan, bool thorough)
 	if (rng.chance(350)) plan.setp("mf_norm_after", rng.range(1, 30000));
 	bool sync_ok = kind != EK_STREAM_MT;
 	bool full_ok = kind != EK_RAW;
+	if (sync_ok && !bcj_chain && plan.p("ch_lzma1", 0) == 0 && rng.chance(350)) {
+		// binary-tree and hash-chain match finders treat the tail differently while flushing
+		static const int mfs[] = { LZMA_MF_BT2, LZMA_MF_BT3, LZMA_MF_BT4, LZMA_MF_HC3, LZMA_MF_HC4 };
+		plan.setp("ch_mf", mfs[rng.below(5)]);
+		plan.setp("ch_mode", rng.chance(500) ? LZMA_MODE_FAST : LZMA_MODE_NORMAL);
+		plan.setp("ch_nice", rng.chance(500) ? rng.range(2, 40) : rng.range(2, 273));
+		plan.setp("ch_depth", rng.chance(500) ? 0 : rng.range(1, 40));
+		if (kind == EK_EASY) plan.setp("preset", 4 + (int64_t)rng.below(3));
+		static const int rep[] = { IN_RUNS, IN_TEXT, IN_ZEROS, IN_REPEAT_FAR, IN_RUNS, IN_X86ISH };
+		plan.setp("in_class", rep[rng.below(6)]);
+		plan.setp("in_len", 20 + (int64_t)rng.size_skewed(6000));
+		gen_flush_storm(rng, plan, (size_t)plan.p("in_len"));
+		return;
+	}
 	gen_history(rng, plan, (size_t)plan.p("in_len"), sync_ok, full_ok, kind != EK_EASY);
 }
 
